@@ -19,6 +19,9 @@ ESC_CTRL = ["%00", "%0A", "%0a", "%7F", "%C2%85", "%1F"]
 MALFORMED = ["%", "%4", "%zz", "%%"]
 SPACE = [" ", "%20"]
 DOUBLE = ["%2541", "%252F", "%2520"]
+# '&amp;' written for '&' (normalize_url repairs it, canonicalize_url must not): as text it is
+# an item boundary followed by the key 'amp;…'
+AMP = ["&amp;", "&amp%3B", "&AMP;"]
 TEXT_ATOMS = LIT + ESC_RESERVED + ESC_UNRESERVED + ESC_UTF8 + ESC_BAD + ESC_CTRL + MALFORMED + SPACE + DOUBLE
 
 # which raw delimiters may appear in which component without changing the parse
@@ -26,14 +29,16 @@ RAW_OK = {
     "user": ["+", ";", ",", "="],
     "password": ["+", ";", ",", "=", ":"],
     "segment": ["&", "=", "@", ":", "+", ";", ","],
-    "qkey": ["/", "?", "@", ":", "+", ";", ","],
-    "qval": ["/", "?", "@", ":", "+", ";", ",", "="],
+    "qkey": ["/", "?", "@", ":", "+", ";", ","] + AMP,
+    "qval": ["/", "?", "@", ":", "+", ";", ",", "="] + AMP,
     "fragment": ["/", "?", "&", "=", "@", ":", "+", ";", ",", "#"],
 }
 
 HOSTS = [
     "a.com", "A.Com", "sub.example.co.uk", "xn--tlrama-bvab.fr", "XN--TLRAMA-BVAB.FR", "télérama.fr",
     "1.2.3.4", "[::1]", "[2001:DB8::1]", "localhost", "a-b.c-d.org", "xn--ki8h.ws", "日本.jp", "a.com.",
+    # mixed spellings: a punycode label next to a label already written in Unicode
+    "bücher.xn--tlrama-bvab.fr", "xn--tlrama-bvab.日本.jp", "BÜcher.XN--TLRAMA-bvab.fr",
 ]
 SCHEMES = ["http://", "https://", "HTTP://", "hTTps://", "ftp://", "", "//", "custom://", "wss://"]
 PORTS = [None, "80", "443", "8080", "0", "65535", "00080", ""]
@@ -269,10 +274,11 @@ def t_punycode(p, rng):
     changed = False
     inv = {v: k for k, v in PUNY.items()}
     for l in labels:
-        if l.lower() in PUNY:
+        # each label is swapped independently, so mixed spellings occur
+        if l.lower() in PUNY and rng.random() < 0.7:
             out.append(PUNY[l.lower()])
             changed = True
-        elif l in inv:
+        elif l in inv and rng.random() < 0.7:
             out.append(inv[l])
             changed = True
         else:
